@@ -107,6 +107,47 @@ def _set_at(v, path, new):
 
 
 @st.composite
+def lookalike_union(draw):
+    """(spec, full value): a union of containers of one kind that differ in leaf types / length, nested inside a dict
+    or a typed list - a sparse value fits several alternatives syntactically but only one (or none) semantically"""
+    leaf = st.sampled_from([{"t": "int"}, {"t": "str"}, {"t": "float"}, {"t": "none"}, {"t": "bool"}, {"t": "int", "min": 0, "order": ["min"]},
+                            {"t": "str", "len": ["max", 3], "order": ["len"]}])
+    keys = draw(st.lists(st.sampled_from(["kind", "x", "y", "id", "name"]), min_size=2, max_size=3, unique=True))
+    kind = draw(st.sampled_from(["dicts", "dicts", "lists"]))
+    alts = []
+    for _ in range(draw(st.integers(2, 3))):
+        if kind == "dicts":
+            alts.append({"t": "dict", "entries": [{"key": k, "opt": draw(st.integers(0, 4)) == 0, "spec": draw(leaf)} for k in keys],
+                         "relaxed": draw(st.integers(0, 4)) == 0})
+        else:
+            n = draw(st.integers(1, 3))
+            alts.append({"t": "list", "form": draw(st.sampled_from(["exact", "exact", "head"])), "elems": [draw(leaf) for _ in range(n)]})
+    union = {"t": "any", "alts": alts}
+    wrap = draw(st.sampled_from(["dict", "list", "dict-in-list", "bare"]))
+    if wrap == "dict":
+        spec = {"t": "dict", "entries": [{"key": "payload", "opt": False, "spec": union}, {"key": "tag", "opt": True, "spec": {"t": "str"}}],
+                "relaxed": False}
+    elif wrap == "list":
+        spec = {"t": "list", "form": "typed", "elem": union}
+    elif wrap == "dict-in-list":
+        spec = {"t": "list", "form": "typed", "elem": {"t": "dict", "entries": [{"key": "p", "opt": False, "spec": union}], "relaxed": False}}
+    else:
+        spec = union
+    return spec, draw(values.conforming(spec))
+
+
+@st.composite
+def lookalike_case(draw):
+    try:
+        spec, full = draw(lookalike_union())
+    except values.Unsat:
+        return None
+    v = project(draw, full, p=draw(st.sampled_from([1, 2, 4])))
+    return {"spec": spec, "value": v, "full": full, "kind": "sparse-into-lookalike-union", "rng": draw(rng.script_strategy(30)),
+            "share": False}
+
+
+@st.composite
 def window_case(draw):
     """`[..., a, b, ...]` whose first declared element is a dict; the value holds, before the real window, a
     decoy: a (partial) dict that fits the first element followed by something that does not fit the second"""
@@ -178,8 +219,8 @@ def subst_case(draw, kinds=PLAIN_KINDS, sat=True, depth_choices=(0, 1, 1, 2, 2, 
     depth = draw(st.sampled_from(list(depth_choices)))
     any_of_relaxed = False
     special = draw(st.integers(0, 11))
-    if special < 2:
-        c = draw(window_case() if special == 0 else aliased_case())
+    if special < 3:
+        c = draw([window_case, aliased_case, lookalike_case][special]())
         if c is not None:
             return c
     if dict_bias and draw(st.integers(0, 9)) < dict_bias:
@@ -287,6 +328,9 @@ def carries(v, w, float_tol=0.0):
         if isinstance(v, int) and isinstance(w, int) and int(v) == int(w):
             return None
         return f"{w!r} != {v!r}"
+    if type(v) in (int, float) and type(w) in (int, float):
+        # "scalars equal": an int and a float are the same number or they are not (2**53 + 1 has no float)
+        return None if v == w else f"{w!r} != {v!r}"
     if type(v) is not type(w) and not (isinstance(w, type(v))):
         return f"{w!r} ({type(w).__name__}) != {v!r}"
     return None if v == w else f"{w!r} != {v!r}"
